@@ -1,0 +1,14 @@
+//go:build verif
+
+package seccomp
+
+// Contracts for gocv (see /verif/DESIGN.md). Comment-only; compiled only with
+// the build tag "verif".
+
+// SockFprog: the program handed to the kernel is exactly the filter (length not truncated,
+// pointer to its first instruction). An empty filter has no first instruction.
+//@ func pkg/seccomp.(Filter).SockFprog props C01 C10
+//@   arith int
+//@   requires len(f) >= 1 && len(f) <= 65535
+//@   assigns nothing
+//@   ensures result != nil && fresh(result) && int(result.Len) == len(f) && result.Filter == elemaddr(f, 0)
